@@ -408,7 +408,7 @@ def subsample_field(field, subsampling, new_grid=None, statistic='mean'):
         else:
             # Statistic is mean
             weights = field.grid.weights
-            w = weights.reshape(tuple(reshape)).sum(axis=tuple(axes))
+            w = weights.reshape(tuple(reshape[field.tensor_order:])).sum(axis=tuple(np.array(axes) - field.tensor_order))
             f = np.sum((field * weights).reshape(tuple(reshape)), axis=tuple(axes))
             return Field((f / w).reshape(tuple(new_shape)), new_grid)
 
